@@ -128,9 +128,9 @@ theorem step_vstore (hc : Contract c) (h : Sim c it σ s) {loop : Bool} (hl : lo
     · exact absurd hs (by simp)
   · exact absurd hs (by simp)
 
-/-- instructions the straight-line symbolic execution accepts are never `RET`/`JZ`/`JNZ` -/
+/-- instructions the straight-line symbolic execution accepts are never `RET` or a jump -/
 def isPlain : Instr → Bool
-  | .ret | .jz _ | .jnz _ => false
+  | .ret | .jz _ | .jnz _ | .ja _ | .jmp _ => false
   | _ => true
 
 theorem symStep_plain {cfg : Cfg} {loop : Bool} {i : Instr} (hs : symStep cfg loop i σ = some σ') :
@@ -167,5 +167,6 @@ theorem symStep_sound (hc : Contract c) {loop : Bool} (hl : loop = true → it <
   | label l => simp [symStep] at hs
   | ret => simp [symStep] at hs
   | vzeroupper => simp [symStep] at hs
+  | _ => simp [symStep] at hs
 
 end RSV.Asm
